@@ -798,11 +798,68 @@ pub fn far_apart_cases(seed: u64) -> Vec<Case> {
 /* ------------------------------------------------------------------------------------------ */
 
 /// C08: every stack, every failing call index
+/// implementation only: the hook protocol on inputs whose stripped middles are large and have nothing in common (cheap
+/// for every algorithm -- LCS' table stays empty -- yet beyond any table / work size at which an algorithm might hand
+/// over to another one): finish once and last, a valid script, and an error at the first, a middle and the last call
+/// stops the run there
+fn big_protocol_cases(ctx: &mut Ctx) {
+    let sizes: &[usize] = if ctx.tier == Tier::Quick { &[1100, 6000] } else { &[1100, 3300, 6000, 10_001] };
+    for &m in sizes {
+        let mut old: Vec<u32> = vec![1];
+        old.extend((0..m as u32).map(|i| 1_000_000 + i));
+        old.push(2);
+        let mut new: Vec<u32> = vec![1];
+        new.extend((0..m as u32 + 3).map(|i| 2_000_000 + i));
+        new.push(2);
+        for alg in ALGS {
+            if m > 7000 && alg != Algorithm::Lcs {
+                continue;
+            }
+            for stack in [Stack::None, Stack::Replace, Stack::CompactReplace, Stack::NoFinish, Stack::MutRef] {
+                if !ctx.take() {
+                    continue;
+                }
+                let mut c = Case::full(alg, &old, &new);
+                c.stack = stack;
+                let req = format!("diff {} {} - - 1 0 | <1, {} distinct items, 2> | <1, {} other distinct items, 2> | 0 {} 0 {}", alg_name(alg), stack.name(), m, m + 3, old.len(), new.len());
+                ctx.count("stacks.big_protocol_cases");
+                let full = run_case(&c);
+                if full.status != Status::Ok {
+                    ctx.violation("C08", &req, format!("run without failing hook: {:?}", full.status));
+                    continue;
+                }
+                if stack == Stack::NoFinish {
+                    if full.trace.iter().any(|x| *x == Call::Finish) {
+                        ctx.violation("C08", &req, "NoFinishHook forwarded finish".to_string());
+                    }
+                } else if let Err(e) = oracle::finish_once_last(&full.trace) {
+                    ctx.violation("C08", &req, e.clone());
+                    ctx.violation("C01", &req, e);
+                }
+                if let Err(e) = oracle::walk(&c.old, &c.new, 0, 0, ranges(&c), &oracle::strip_finish(&full.trace), false) {
+                    ctx.violation("C08", &req, format!("not a valid script: {}", e));
+                }
+                for kf in [0, full.trace.len() / 2, full.trace.len().saturating_sub(1)] {
+                    let mut f = c.clone();
+                    f.fail = Some(kf);
+                    let fo = run_case(&f);
+                    if fo.status != Status::HookErr {
+                        ctx.violation("C08", &req, format!("hook failed at call {} but the diff returned {:?}", kf, fo.status));
+                    } else if fo.trace.len() != kf + 1 {
+                        ctx.violation("C08", &req, format!("hook failed at call {}: {} calls after the failing call", kf, fo.trace.len().saturating_sub(kf + 1)));
+                    }
+                }
+            }
+        }
+    }
+}
+
 pub fn suite_stacks(ctx: &mut Ctx) {
     let (k, l, nrand) = match ctx.tier {
         Tier::Quick => (2, 3, 300),
         Tier::Thorough => (2, 5, 4000),
     };
+    big_protocol_cases(ctx);
     let seqs = gen::all_seqs(k, l);
     let mut pairs: Vec<(Vec<u32>, Vec<u32>)> = vec![];
     for o in &seqs {
